@@ -1221,6 +1221,188 @@ def changed_functions():
     return out
 
 
+# ------------------------------------------------------------------------------------- G8: state outside the instances
+# The Lean models treat the codec layer (protocol.py, data_protocol.py, metadata_protocol.py) as PURE functions and every
+# server / connection / item manager as the sole owner of its state.  The sequential differentials cannot see a violation of
+# that assumption (a memo in a module global, a class-level container, a caching decorator, a descriptor that stores on
+# itself behave identically in one thread and one instance), so the assumption itself is extracted from the source: every
+# place where a function writes state that outlives the call and is not reached through `self` (or another parameter / local).
+_MUTATORS = {"append", "appendleft", "extend", "extendleft", "insert", "add", "update", "setdefault", "pop", "popleft", "popitem",
+             "clear", "remove", "discard", "sort", "reverse", "put", "put_nowait", "set", "__setitem__", "__setattr__", "move_to_end"}
+_CONTAINERS = {"list", "dict", "set", "deque", "defaultdict", "OrderedDict", "Counter", "Queue", "Event", "Lock", "RLock",
+               "WeakValueDictionary", "WeakKeyDictionary", "local", "bytearray"}
+STATE_FILES = ["protocol.py", "data_protocol.py", "metadata_protocol.py", "subscription.py", "server.py", "exceptions.py"]
+
+
+def _base_name(node):
+    via_class = False
+    while isinstance(node, (ast.Attribute, ast.Subscript, ast.Call)):
+        if isinstance(node, ast.Attribute) and node.attr == "__class__":
+            via_class = True
+        if isinstance(node, ast.Call):
+            if isinstance(node.func, ast.Name) and node.func.id == "type":
+                via_class = True
+            node = node.func if not isinstance(node.func, ast.Name) else (node.args[0] if node.args else node.func)
+            continue
+        node = node.value
+    return (node.id if isinstance(node, ast.Name) else None), via_class
+
+
+def _shared_state_of(rel):
+    try:
+        tree, _ = parse(rel)
+    except OSError:
+        return []
+    rows = []
+    mod_names = set()
+    for n in tree.body:
+        if isinstance(n, (ast.FunctionDef, ast.ClassDef)):
+            mod_names.add(n.name)
+        elif isinstance(n, (ast.Import, ast.ImportFrom)):
+            mod_names |= {(a.asname or a.name).split(".")[0] for a in n.names}
+        else:
+            mod_names |= {t.id for t in ast.walk(n) if isinstance(t, ast.Name) and isinstance(t.ctx, ast.Store)}
+
+    def is_container(v):
+        if isinstance(v, (ast.List, ast.Dict, ast.Set, ast.ListComp, ast.DictComp, ast.SetComp)):
+            return True
+        if isinstance(v, ast.Call):
+            f = v.func
+            nm = f.id if isinstance(f, ast.Name) else f.attr if isinstance(f, ast.Attribute) else None
+            return nm in _CONTAINERS
+        return False
+
+    def visit_fn(fn, qual, outer_locals):
+        args = fn.args
+        params = {a.arg for a in args.posonlyargs + args.args + args.kwonlyargs}
+        if args.vararg:
+            params.add(args.vararg.arg)
+        if args.kwarg:
+            params.add(args.kwarg.arg)
+        for d in list(args.defaults) + [d for d in args.kw_defaults if d is not None]:
+            if is_container(d):
+                rows.append((qual, "mutable-default " + ast.unparse(d)))
+        for d in fn.decorator_list:
+            src = ast.unparse(d)
+            if "cache" in src.lower() or "memo" in src.lower():
+                rows.append((qual, "decorator " + src))
+        declared = set()
+        own = []
+
+        def collect(node):
+            for ch in ast.iter_child_nodes(node):
+                if isinstance(ch, (ast.FunctionDef, ast.AsyncFunctionDef, ast.Lambda, ast.ClassDef)):
+                    if not isinstance(ch, ast.Lambda):
+                        own.append(ch)
+                    continue
+                yield ch
+                yield from collect(ch)
+        nodes = list(collect(fn))
+        for n in nodes:
+            if isinstance(n, (ast.Global, ast.Nonlocal)):
+                declared |= set(n.names)
+                rows.append((qual, ("global " if isinstance(n, ast.Global) else "nonlocal ") + ",".join(n.names)))
+        locals_ = set(params)
+        for n in nodes:
+            if isinstance(n, ast.Name) and isinstance(n.ctx, ast.Store) and n.id not in declared:
+                locals_.add(n.id)
+            elif isinstance(n, (ast.ExceptHandler,)) and n.name:
+                locals_.add(n.name)
+            elif isinstance(n, (ast.Import, ast.ImportFrom)):
+                locals_ |= {(a.asname or a.name).split(".")[0] for a in n.names}
+        scope = locals_ | outer_locals
+        first = args.args[0].arg if args.args else None
+
+        def shared(target):
+            base, via_class = _base_name(target)
+            if via_class:
+                return True
+            if base is None:
+                return False
+            if base == "cls" and first == "cls":
+                return True
+            return base not in scope and base in mod_names
+
+        for n in nodes:
+            targets = []
+            if isinstance(n, ast.Assign):
+                targets = n.targets
+            elif isinstance(n, (ast.AugAssign, ast.AnnAssign)):
+                targets = [n.target]
+            elif isinstance(n, ast.Delete):
+                targets = n.targets
+            for t in targets:
+                for tt in (t.elts if isinstance(t, (ast.Tuple, ast.List)) else [t]):
+                    if isinstance(tt, (ast.Attribute, ast.Subscript)) and shared(tt):
+                        rows.append((qual, "store " + ast.unparse(tt)))
+            if isinstance(n, ast.Call) and isinstance(n.func, ast.Attribute) and n.func.attr in _MUTATORS and shared(n.func.value) \
+                    and not (isinstance(n.func.value, ast.Name) and n.func.value.id in ("os", "sys", "logging", "traceback")):
+                rows.append((qual, "mutate " + ast.unparse(n.func)))
+            if isinstance(n, ast.Call) and isinstance(n.func, ast.Name) and n.func.id == "setattr" and n.args and shared(n.args[0]):
+                rows.append((qual, "setattr " + ast.unparse(n.args[0])))
+        for ch in own:
+            if isinstance(ch, ast.ClassDef):
+                visit_class(ch, qual + "." + ch.name, scope)
+            else:
+                visit_fn(ch, qual + "." + ch.name, scope)
+
+    def visit_class(cls, qual, outer_locals):
+        meths = {m.name for m in cls.body if isinstance(m, ast.FunctionDef)}
+        if meths & {"__set__", "__get__", "__delete__"}:
+            rows.append((qual, "descriptor " + ",".join(sorted(meths & {"__set__", "__get__", "__delete__", "__set_name__"}))))
+        for n in cls.body:
+            if isinstance(n, (ast.Assign, ast.AnnAssign)) and n.value is not None and is_container(n.value):
+                tg = n.targets[0] if isinstance(n, ast.Assign) else n.target
+                rows.append((qual, "class-attribute %s = %s" % (ast.unparse(tg), ast.unparse(n.value)[:40])))
+            elif isinstance(n, ast.FunctionDef):
+                visit_fn(n, qual + "." + n.name, outer_locals)
+            elif isinstance(n, ast.ClassDef):
+                visit_class(n, qual + "." + n.name, outer_locals)
+
+    for n in tree.body:
+        if isinstance(n, ast.FunctionDef):
+            visit_fn(n, n.name, set())
+        elif isinstance(n, ast.ClassDef):
+            visit_class(n, n.name, set())
+    return [(rel + ":" + q, w) for q, w in rows]
+
+
+def shared_state_rows():
+    rows = []
+    for rel in STATE_FILES:
+        rows += _shared_state_of(rel)
+    return rows
+
+
+def gen_state():
+    rows = shared_state_rows()
+    out = HEADER % "every module of lightstreamer_adapter (writes to state that is not reached through self / a parameter / a local)"
+    out += "namespace Ari.Gen\n\n"
+    out += "/-- (file:function, what): module-level or class-level state written inside a function, caching decorators, mutable\n"
+    out += "    default arguments, class-level containers, descriptors — everything that would make a codec function impure or let two\n"
+    out += "    server / connection / item instances share state. -/\n"
+    out += "def sharedState : List (String × String) :=\n [" + ",\n  ".join("(%s, %s)" % (lean_str(a), lean_str(b)) for a, b in rows) + "]\n\n"
+    out += "end Ari.Gen\n"
+    return out
+
+
+TARGETS.append(("State", gen_state))
+
+
+def state_functions():
+    """function names (last component) in which the CURRENT source writes shared state that the record does not list."""
+    try:
+        spec = open(os.path.join(C.LEAN, "AriVerif", "Spec", "State.lean"), encoding="utf-8").read()
+    except OSError:
+        spec = ""
+    out = {}
+    for a, b in shared_state_rows():
+        if "(%s, %s)" % (lean_str(a), lean_str(b)) not in spec:
+            rel, q = a.split(":", 1)
+            out.setdefault(rel, set()).add(q.split(".")[-1])
+    return out
+
+
 if __name__ == "__main__":
     import json
     print(json.dumps(regenerate(), indent=1))
